@@ -585,6 +585,7 @@ def _case(task):
         r = _api('from_file', main, incdirs)
         out['from_file'] = _slim(r)
         out['size'] = sum(len(v) for v in files.values())
+        out['depth'] = max([_nesting(v) for v in files.values()] or [0])
         out['hash'] = D.sha('\0'.join('%s\0%s' % (k, v if isinstance(v, str) else v.decode('latin1'))
                                        for k, v in sorted(files.items())))
         if task.get('all_apis') or r['outcome'] == 'ok':
@@ -627,6 +628,21 @@ def _case(task):
         shutil.rmtree(d, ignore_errors=True)
 
 
+def _nesting(text):
+    """nesting depth of a YAML text: flow brackets and block indentation"""
+    if isinstance(text, bytes):
+        text = text.decode('latin1')
+    d = m = 0
+    for ch in text:
+        if ch in '[{':
+            d += 1
+            m = max(m, d)
+        elif ch in ']}':
+            d = max(0, d - 1)
+    ind = max([len(l) - len(l.lstrip(' ')) for l in text.splitlines()] or [0])
+    return max(m, ind // 1 if ind < 10000 else 10000)
+
+
 # ------------------------------------------------------------------ classification
 
 def exc_key(api, r, res):
@@ -635,7 +651,9 @@ def exc_key(api, r, res):
     fn = site.split(':')[-1] if site else ''
     sfile = site.split(':')[0] if site else ''
     if et == 'RecursionError':
-        return 'S15-deep-nesting-RecursionError'
+        # S15 is about deeply nested INPUT; unbounded recursion on a flat document (e.g. an inclusion cycle that is
+        # not detected) is another defect
+        return 'S15-deep-nesting-RecursionError' if res.get('depth', 0) >= 100 else 'NEW-RecursionError-on-flat-input-%s' % fn
     if api == 'major_version' and et == 'AssertionError' and fn == '_config_file_major_version':
         return 'S5-non-mapping-root-assert'
     if et == 'TypeError' and inner.startswith('re/') and fn == '_validate':
